@@ -69,3 +69,100 @@ Proof.
   - apply andb_prop in H. destruct H as [H1 H2]. apply N.eqb_eq in H1. apply IH in H2. subst. reflexivity.
   - inversion H; subst. rewrite N.eqb_refl. cbn [andb]. apply IH. reflexivity.
 Qed.
+
+(* ---------- agreement of the traversal with the specification ---------- *)
+Lemma firstn_app_exact' {A} (a b : list A) : firstn (length a) (a ++ b) = a.
+Proof. rewrite firstn_app, Nat.sub_diag, firstn_all. cbn. apply app_nil_r. Qed.
+
+Lemma matches_app a : forall b idx key,
+  matches (a ++ b) idx key = matches a idx key ++ matches b (idx + length a) key.
+Proof.
+  induction a as [|n a IH]; intros b idx key; cbn [app matches length].
+  - rewrite Nat.add_0_r. reflexivity.
+  - rewrite IH. replace (S idx + length a) with (idx + S (length a)) by lia.
+    destruct (beq_bytes key n); reflexivity.
+Qed.
+
+Lemma matches_range l : forall idx key i, In i (matches l idx key) -> idx <= i < idx + length l.
+Proof.
+  induction l as [|n l IH]; intros idx key i H; cbn [matches] in H; [contradiction|].
+  cbn [length]. destruct (beq_bytes key n).
+  - destruct H as [<-|H]; [lia|]. apply IH in H. lia.
+  - apply IH in H. lia.
+Qed.
+
+Lemma filter_all {A} (f : A -> bool) l : (forall x, In x l -> f x = true) -> filter f l = l.
+Proof.
+  induction l as [|x l IH]; intros H; [reflexivity|]. cbn [filter].
+  rewrite (H x (or_introl eq_refl)). f_equal. apply IH. intros y Hy. apply H. right. assumption.
+Qed.
+
+Lemma filter_none {A} (f : A -> bool) l : (forall x, In x l -> f x = false) -> filter f l = [].
+Proof.
+  induction l as [|x l IH]; intros H; [reflexivity|]. cbn [filter].
+  rewrite (H x (or_introl eq_refl)). apply IH. intros y Hy. apply H. right. assumption.
+Qed.
+
+Lemma loc_fwd_spec l : forall idx k key, 1 <= k ->
+  loc_fwd l idx k key = nth_error (matches l idx key) (k - 1).
+Proof.
+  induction l as [|n l IH]; intros idx k key Hk; cbn [loc_fwd matches].
+  - destruct (k - 1); reflexivity.
+  - destruct (beq_bytes key n).
+    + destruct (Nat.eqb_spec k 1) as [->|Hne]; [reflexivity|].
+      rewrite IH by lia. replace (k - 1) with (S (k - 1 - 1)) at 2 by lia. reflexivity.
+    + apply IH. assumption.
+Qed.
+
+Lemma loc_bwd_spec l : forall k key, 1 <= k ->
+  loc_bwd (rev l) (length l - 1) k key = nth_error (rev (matches l 0 key)) (k - 1).
+Proof.
+  induction l as [|n l IH] using rev_ind; intros k key Hk.
+  - cbn. destruct (k - 1); reflexivity.
+  - rewrite rev_app_distr. cbn [rev app loc_bwd].
+    rewrite matches_app, rev_app_distr. cbn [matches Nat.add].
+    rewrite app_length. cbn [length].
+    replace (length l + 1 - 1) with (length l) by lia.
+    destruct (beq_bytes key n).
+    + cbn [rev app].
+      destruct (Nat.eqb_spec k 1) as [->|Hne]; [reflexivity|].
+      rewrite IH by lia. replace (k - 1) with (S (k - 1 - 1)) at 2 by lia. reflexivity.
+    + cbn [rev app]. apply IH. assumption.
+Qed.
+
+Theorem locate_refines_spec names start p key :
+  (match p with LFwd k | LBwd k => 1 <= k | LLast => True end) ->
+  locate names start p key = locate_spec names start p key.
+Proof.
+  intros Hk. unfold locate, locate_spec.
+  destruct (Nat.leb_spec (length names) start) as [|Hs]; [reflexivity|].
+  assert (Hsplit : names = firstn start names ++ skipn start names) by (symmetry; apply firstn_skipn).
+  assert (Hlf : length (firstn start names) = start) by (rewrite firstn_length; lia).
+  destruct p as [k| |k].
+  - rewrite loc_fwd_spec by assumption. f_equal.
+    rewrite Hsplit at 2. rewrite matches_app, filter_app, Hlf. cbn [Nat.add].
+    rewrite filter_none, filter_all; [reflexivity| |].
+    + intros i Hi. apply matches_range in Hi. apply Nat.leb_le. lia.
+    + intros i Hi. apply matches_range in Hi. apply Nat.leb_gt. lia.
+  - (* last match *)
+    assert (Hne : names <> []) by (intros ->; cbn in Hs; lia).
+    pose proof (app_removelast_last [] Hne) as Hlast.
+    set (body := removelast names) in *. set (lst := last names []) in *.
+    assert (Hlen : length names = S (length body)) by (rewrite Hlast, app_length; cbn; lia).
+    assert (Hnth : nth (length names - 1) names [] = lst).
+    { rewrite Hlast at 2. rewrite app_nth2 by lia. replace (length names - 1 - length body) with 0 by lia. reflexivity. }
+    assert (Hfirst : firstn (length names - 1) names = body).
+    { rewrite Hlast at 2. replace (length names - 1) with (length body) by lia. apply firstn_app_exact'. }
+    rewrite Hnth, Hfirst.
+    rewrite Hlast at 3. rewrite matches_app, rev_app_distr. cbn [matches Nat.add].
+    destruct (beq_bytes key lst).
+    + cbn [rev app nth_error]. f_equal. lia.
+    + cbn [rev app]. replace (length names - 1 - 1) with (length body - 1) by lia.
+      rewrite (loc_bwd_spec body 1 key) by lia. reflexivity.
+  - replace (start - 1) with (length (firstn start names) - 1) by lia.
+    rewrite loc_bwd_spec by assumption. f_equal. f_equal.
+    rewrite Hsplit at 2. rewrite matches_app, filter_app, Hlf. cbn [Nat.add].
+    rewrite filter_all, filter_none; [rewrite app_nil_r; reflexivity| |].
+    + intros i Hi. apply matches_range in Hi. apply Nat.ltb_ge. lia.
+    + intros i Hi. apply matches_range in Hi. apply Nat.ltb_lt. lia.
+Qed.
